@@ -8,6 +8,14 @@ import subprocess
 ROOT = os.path.dirname(os.path.dirname(os.path.abspath(__file__)))
 # subject prefix of the fix: commit -> (properties, what failed before the repair, how the checks showed it)
 FIXED = {
+    'fix: let the replica applier accept the entries of a batch, ': (['C13', 'C14'], 'entries of a transaction share one sequence number; the applier applied the first one, raised "gap within batch" and stayed stuck with half a transaction visible', 'C13 component replay: "message must be accepted: gap within batch 2 -> 2 applied=2"'),
+    'fix: keep replication attached to the WAL across rotations': (['C14'], 'the primary observed and polled the WAL object alive at start; after the first flush nothing reached the replicas', 'C14 system scenario flush-between: noconv after 20 s'),
+    'fix: agree on the meaning of start_sequence between replica ': (['C14'], 'replica and primary disagreed on start_sequence (inclusive vs exclusive): the entry numbered start_sequence was neither pushed nor polled; a single write after the replica had caught up never arrived', 'C14 system scenario single-after-idle: noconv'),
+    'fix: do not flag pushed WAL batches as compressed when they ': (['C14'], 'pushed batches were flagged ZSTD although nothing compressed them: the replica failed to decompress every pushed batch and reconnected after a back-off', 'C14 system scenarios (replica log: invalid compressed data -> ERROR)'),
+    'fix: keep one Recv outstanding per replication stream and ne': (['C13', 'C14'], 'abandoned Recv goroutines read the stream concurrently and dropped messages; received messages were discarded through illegal state transitions (one reconnect + 1 s back-off per message)', 'C14 system scenarios: convergence time / lost pushes'),
+    'fix: end a chunk of WAL entries sent to a replica at a batch': (['C13', 'C14'], 'a 100-entry chunk could end inside a transaction: the rest of the transaction was never applied while its sequence was reported as applied', 'C13/C14 system scenario chunk-cuts-batch-join-after: noconv, half a transaction visible'),
+    'fix: send every WAL entry to a replica once and in order, an': (['C14', 'C15'], 'the poll re-sent the same chunk every 100 ms (duplicates -> NACK -> resend storm); with 64 KB values a HEALTHY replica dead-locked the primary (poll blocked in Send under the session lock, replica waiting for its NACK answer, writer waiting for the session lock); the poll read the WAL under the session lock (lock order inversion with writers)', 'C15 fault scenario no-fault healthy=1: Put never returned (goroutine dump)'),
+    'fix: bound catch-up messages by size and let the replica acc': (['C14'], "catch-up messages of 100 x 64 KB exceeded the replica's 4 MB gRPC receive limit: ResourceExhausted for ever, replica never caught up", 'C15 scenario no-fault healthy=1: hconv false after 60 s'),
     'fix: a WAL file that ends right behind a record header': (['C10', 'C02'], 'a file cut exactly behind a 7-byte record header read as cleanly ended: ReuseWAL appended behind the orphaned header and acknowledged writes were lost at the next open', 'C10 fault enumeration: cut at record offset + 7, post-recovery writes missing at the second open (findings/C10_eof_behind_header.json)'),
     'fix: drop the fragments of a WAL entry that can no longer be completed': (['C10'], 'stale fragments stayed pending after a read error or when FULL/FIRST followed an unfinished entry: an old entry was delivered late in place of a later fragmented one', 'C10: type byte LAST->FIRST/MIDDLE (findings/C10_stale_fragments_reordered.json)'),
     'fix: end the replay of a WAL file at its first damaged record': (['C10'], 'after a damaged record the reader skipped 32 KB blindly and parsed key/value bytes as records: forged or altered entries were delivered and appeared in the engine', 'C10 (findings/C10_blind_skip_forged_entry.json, C10_blind_skip_altered_value.json)'),
